@@ -578,6 +578,20 @@ def gen_offsets(rng):
     return {"lookback": list(lb), "lag": list(lag)}
 
 
+def gen_month_edge(rng, min_cols=2):
+    """windows whose two offsets do not commute: calendar-month arithmetic next to a month end (now - lag - lookback is evaluated
+    left to right: Mar 31 - 1 day - 1 month = Feb 29, Mar 31 - 1 month - 1 day = Feb 28), on a daily calendar so that every
+    boundary date is a row"""
+    u = gen_universe(rng, min_dates=70, max_dates=100, min_cols=min_cols, nan_ok=rng.random() < 0.3, cal="daily")
+    edge = [i for i, ds in enumerate(u["dates"]) if i >= 45 and (pd.Timestamp(ds).day >= 29 or pd.Timestamp(ds).day <= 2)]
+    now = rng.choice(edge) if edge else len(u["dates"]) - 1
+    if rng.random() < 0.7:
+        off = {"lookback": ["months", rng.randint(1, 2)], "lag": ["days", rng.randint(1, 3)]}
+    else:
+        off = {"lookback": ["days", rng.randint(10, 40)], "lag": ["months", 1]}
+    return u, now, off
+
+
 def offset_of(o):
     return pd.DateOffset(**{o[0]: o[1]})
 
@@ -662,6 +676,9 @@ def monitor_front(c, who, sel, ret, real):
 @kind("invvol", 2)
 def _invvol():
     def gen(rng):
+        if rng.random() < 0.25:
+            u, now, off = gen_month_edge(rng)
+            return {"u": u, "now": now, "sel": gen_selection(rng, u), "off": off}
         u = gen_universe(rng, min_dates=3, max_dates=30, min_cols=2, nan_ok=rng.random() < 0.6)
         return {"u": u, "now": rng.randrange(len(u["days"])), "sel": gen_selection(rng, u), "off": gen_offsets(rng)}
 
@@ -717,6 +734,8 @@ def kernel_case(which):
         if easy:   # enough history for the optimisers to have something to solve
             off["lookback"] = list(rng.choice([("days", rng.randint(15, 90)), ("months", rng.randint(1, 3))]))
             now = rng.randrange(len(u["days"]) * 2 // 3, len(u["days"]))
+        if rng.random() < 0.2:
+            u, now, off = gen_month_edge(rng)
         d = {"u": u, "now": now, "sel": gen_selection(rng, u), "off": off,
              "stub": rng.random() < 0.35}
         n = len(d["sel"])
@@ -1046,7 +1065,7 @@ def _pte():
         cur = {}
         if has_pos:
             prow = u["rows"][now_i]
-            cur = {k: (None if prow[u["cols"].index(k)] is None else q * prow[u["cols"].index(k)] / value) for k, q in pos}
+            cur = {k: (None if (prow[u["cols"].index(k)] is None or value == 0) else q * prow[u["cols"].index(k)] / value) for k, q in pos}
             cols = list(cur) + [k for k in d["cols"] if k not in cur]
             tgt = dict(zip(d["cols"], d["row"]))
             diff = []
@@ -1088,6 +1107,8 @@ def _pte():
                 c.tags.append("unknown-covar_method-rejected")
             else:
                 viol(c, "pte-raises:covar_method=%s" % d["method"], "%s: %s" % (type(exc).__name__, str(exc)[:80]))
+        elif value == 0:
+            c.tags.append("zero-value:current-weights-undefined:not-judged")
         elif vol is None:
             if ret is not False:
                 viol(c, "pte-nan", "tracking-error volatility undefined but returned %r" % (ret,))
@@ -1111,6 +1132,8 @@ def _pte():
             r = Rd(a[3:])
             mb = r.nat() == 1
             mv = r.oflt()
+            if mv is not None and (mv != mv or value == 0):
+                mv = None         # NaN / built on x/0: undefined, like the oracle's None
             near = vol is not None and abs(vol - cap) <= 1e-9 * max(1.0, vol, cap)
             okb = (mb == bool(ret)) or near
             okv = not has_pos or (mv is None and vol is None) or (mv is not None and vol is not None and close(mv, vol, 1e-6))
